@@ -179,6 +179,7 @@ type Set struct {
 	CaseTy  string // e.g. "c05_case"
 	RunFn   string // e.g. "run_c05" : list CaseTy -> list N * list N
 	Rule    string
+	Prelude func(in *Interner) string // extra definitions placed after the interned strings (may intern)
 	Cases   []Case
 	GoFails []GoFail
 	Extra   map[string]interface{}
@@ -233,10 +234,18 @@ func (s *Set) Write(dir string, k int, in *Interner) error {
 		var b strings.Builder
 		b.WriteString("From Coq Require Import List Bool NArith ZArith String.\n")
 		b.WriteString("From PSA Require Import Base.Str " + s.Imports + ".\n")
-		b.WriteString("Import ListNotations.\nLocal Open Scope string_scope.\n")
+		b.WriteString("Import ListNotations.\nLocal Open Scope string_scope.\nLocal Open Scope nat_scope.\n")
 		used := map[int]bool{}
 		for i := sh; i < n; i += k {
 			for _, u := range s.Cases[i].Uses {
+				used[u] = true
+			}
+		}
+		prelude := ""
+		if s.Prelude != nil {
+			in.TakeUses()
+			prelude = s.Prelude(in)
+			for _, u := range in.TakeUses() {
 				used[u] = true
 			}
 		}
@@ -246,6 +255,7 @@ func (s *Set) Write(dir string, k int, in *Interner) error {
 				b.WriteString("\n")
 			}
 		}
+		b.WriteString(prelude)
 		var names []string
 		cnt := 0
 		for i := sh; i < n; i += k {
@@ -255,8 +265,9 @@ func (s *Set) Write(dir string, k int, in *Interner) error {
 			cnt++
 		}
 		fmt.Fprintf(&b, "Definition cases : list %s := %s.\n", s.CaseTy, List(names))
-		fmt.Fprintf(&b, "Definition RF := Eval vm_compute in (fst (%s cases)).\nPrint RF.\n", s.RunFn)
-		fmt.Fprintf(&b, "Definition RM := Eval vm_compute in (snd (%s cases)).\nPrint RM.\n", s.RunFn)
+		fmt.Fprintf(&b, "Definition R := Eval vm_compute in (%s cases).\n", s.RunFn)
+		b.WriteString("Definition RF := Eval vm_compute in (fst R).\nPrint RF.\n")
+		b.WriteString("Definition RM := Eval vm_compute in (snd R).\nPrint RM.\n")
 		name := fmt.Sprintf("cases_%s_%d.v", s.Stream, sh)
 		if err := os.WriteFile(filepath.Join(dir, name), []byte(b.String()), 0o644); err != nil {
 			return err
